@@ -3,7 +3,7 @@ import itertools
 import numpy as np
 from mcx import geom
 from mcx.ref import zref
-from mcx.props import c06
+from mcx.props import c06, c03
 
 PID = 'C02'
 CHUNK = 1
@@ -11,7 +11,8 @@ TOLERANCE = '|Z_code - Z_ref| <= 1e-4 * (|k^2 A.l| + sum |psi/L|)'
 RULE = ('Lattice structures with <= D wires (generic and axis-aligned lattices, free space and ideal ground, every '
         'assignment of thin/thick radius for <=2 wires, alternating for more), grounded at either end, plus every '
         'description of the curved/tapered junction structures (arc, helix, one- and two-sided tapers joined at '
-        'either end in every order/orientation). For each built model ALL ordered pulse pairs (m,n) whose centres are '
+        'either end in every order/orientation; collinear telescoping wires of equal segment length and different radii; '
+        'a grounded wire at 11 lean angles 0..20 deg). For each built model ALL ordered pulse pairs (m,n) whose centres are '
         '>= 2.5 x the longest of the four segments involved apart are evaluated with adaptive quadrature from pulse '
         'point, far ends, radii and frequency only. State = (structure, pair); transition = one reference evaluation. '
         'Non-trivial: a junction, grounded, tapered or curved pulse is involved.')
@@ -45,7 +46,9 @@ def cases(tier, seed):
                 nseg = [geom.auto_nseg(np.linalg.norm(P[a] - P[b]), 0.04 * lam, nmin=3) for a, b in es]
                 yield dict(env='ideal' if ground else 'free', f=f, lam=lam, pts=pts,
                            st=[dict(a=a, b=b, n=nseg[i], r=(3e-5, 2e-4, 3e-5)[i] * lam) for i, (a, b) in enumerate(es)])
-    for c in c06.extras(tier, seed):
+    for c in c03._lean(tier, seed):
+        yield dict(env='ideal', f=c['f'], lam=c['lam'], pts=c['pts'], st=c['st'], name=c['name'])
+    for c in c06.extras(tier, seed, thick=True):
         for i, ws in enumerate(c['descs']):
             yield dict(env=c['env'], f=c['f'], lam=c['lam'], wires=ws, name='%s#%d' % (c['extra'], i))
 
@@ -58,7 +61,7 @@ def evaluate(c):
     else:
         pts = [np.array(p) for p in c['pts']]
         case = dict(f=c['f'], env=c['env'], wires=[geom.wire(pts[e['a']], pts[e['b']], e['n'], e['r']) for e in c['st']])
-        name = '%s|%s' % (c['env'], [(e['a'], e['b'], e['n'], round(e['r'] / c['lam'], 6)) for e in c['st']])
+        name = '%s%s|%s' % (c.get('name', ''), c['env'], [(e['a'], e['b'], e['n'], round(e['r'] / c['lam'], 6)) for e in c['st']])
         if ground:
             both = [w for w in case['wires'] if abs(w['p1'][2]) < 1e-9 and abs(w['p2'][2]) < 1e-9]
             if both:
